@@ -289,8 +289,9 @@ class OPDFan(Wavefront):
                 intensity_x = self.data[i][j][1][self.num_rays:]
                 intensity_y = self.data[i][j][1][:self.num_rays]
 
-                wx[intensity_x == 0] = np.nan
-                wy[intensity_y == 0] = np.nan
+                # mask vignetted rays in the plotted copy, not in self.data
+                wx = np.where(intensity_x == 0, np.nan, wx)
+                wy = np.where(intensity_y == 0, np.nan, wy)
 
                 axs[i, 0].plot(self.pupil_coord, wy, zorder=3,
                                label=f'{wavelength:.4f} µm')
